@@ -36,7 +36,7 @@ struct LenpHarness : Harness {
     std::vector<std::string> props() const override { return {"C13"}; }
     std::vector<std::string> probes(const std::string &) const override {
         return {"varint_prefix_1", "varint_prefix_2", "varint_prefix_3plus", "buffer_with_offset_and_free_space", "chunk_list_with_empty_chunk", "chunk_list_active_nonzero",
-                "frame_split_inside_prefix", "destination_one_octet_too_small", "over_maximum_refused", "unmaterialised_length_accepted", "kind_maximum_accepted", "sink_error_mid_frame", "buffer_n_less_than_rest",
+                "frame_split_inside_prefix", "destination_one_octet_too_small", "over_maximum_refused", "prefix_declares_more_than_any_destination", "unmaterialised_length_accepted", "kind_maximum_accepted", "sink_error_mid_frame", "buffer_n_less_than_rest",
                 "n_beyond_unread_refused", "fragmented_decode", "append_behind_existing_content", "multi_frame_stream_fragmented", "source_interruption_during_decode"};
     }
     uint64_t runs(const std::string &, const Tier &t) const override { return t.thorough() ? 10000000 : 1200000; }
@@ -117,6 +117,7 @@ struct LenpHarness : Harness {
             o["dbuf"] = triple(0, r.range(0, 6), 0);  // destination buffer: [unused, used-before, unused]; size = used + cap
             // stream of several frames
             { Json fr = Json::arr(); int nf = (int)r.range(2, 4); for (int q = 0; q < nf; ++q) fr.push((long long)r.range(1, r.chance(1, 4) ? 300 : 12)); o["frames"] = fr; }
+            if (!enc && r.chance(1, 12)) o["hdecl"] = (long long)r.below(12);   // a prefix that declares far more than any destination holds
             o["src_octet"] = r.chance(1, 3); o["snk_octet"] = r.chance(1, 3);
             { Json s = Json::arr(); int n = r.chance(1, 3) ? 0 : (int)r.range(1, 10); for (int q = 0; q < n; ++q) { switch (r.below(8)) { case 0: s.push(0); break; case 1: s.push(-EINTR); break; case 2: s.push(-EAGAIN); break; default: s.push((long long)r.range(1, 4)); } } o["frag"] = s; }
             { Json s = Json::arr(); int n = r.chance(1, 2) ? 0 : (int)r.range(1, 8);
@@ -358,6 +359,19 @@ struct LenpHarness : Harness {
             src.data.insert(src.data.end(), pl.begin(), pl.end());
             payloads.push_back(pl);
         }
+        uint64_t declared_only = 0;   // != 0: the stream holds a prefix declaring this length and just a few payload octets
+        if (o.has("hdecl") && (ep == "mem_from" || ep == "buf_from")) {
+            static const uint64_t DECL[12] = {0xffffffffull, 0x80000000ull, 0x7fffffffull, 0x10000ull, 0xffffull, 0x100000000ull, 1ull << 63, ~0ull, (1ull << 63) - 1, 0xffffff00ull, 0x8000ull, 0xffffffff00000001ull};
+            uint64_t dl = DECL[(uint64_t)o.geti("hdecl") % 12];
+            if (dl > kind_max(k)) dl = kind_max(k);
+            if (k == 0 && (o.geti("hdecl") & 1)) dl = DECL[(uint64_t)o.geti("hdecl") % 12];   // varint: any 64-bit value can be declared
+            if (dl > (uint64_t)len + 64) {
+                declared_only = dl;
+                src.data = ref_prefix(k, dl);
+                for (size_t j = 0; j < 8; ++j) src.data.push_back(pay(oi * 7, j));
+                COUNT("probe.prefix_declares_more_than_any_destination");
+            }
+        }
         // fragmentation script: short reads (k >= 1); for the fixed-width kinds, whose prefix and payload are read through
         // source_get_chunk(), also the interruptions that call documents as "retry" (0, -EINTR, -EAGAIN). The varint prefix
         // is read octet-wise without retry (pass-through, C17), so for that kind only short reads are scripted.
@@ -375,6 +389,11 @@ struct LenpHarness : Harness {
             ssize_t rc = 0; bool fin = WITH_BUDGET(c, dbudget, rc = flenp_memory_from_source(K, &source, dst.p, (size_t)cap));
             c.ev(EV_API, 8, (uint64_t)rc, (uint64_t)cap);
             if (!fin) { F("noprogress", "no return within the step budget"); return; }
+            if (declared_only) {
+                if (rc != -ENOMEM) F("nomem", "destination of %lld octets, prefix declares %llu: returned %zd, expected -ENOMEM", (long long)cap, (unsigned long long)declared_only, rc);
+                if (!dst.unchanged_outside(0, 0)) F("nomem", "destination modified although the declared frame does not fit");
+                return;
+            }
             if ((size_t)cap >= payloads[0].size()) {
                 if (rc != (ssize_t)payloads[0].size()) F("result", "destination of %lld octets, frame of %zu: returned %zd", (long long)cap, payloads[0].size(), rc);
                 else if (!bytes_eq(dst.p, payloads[0].data(), payloads[0].size())) F("payload", "decoded payload differs");
@@ -399,6 +418,11 @@ struct LenpHarness : Harness {
             c.ev(EV_API, 9, (uint64_t)rc, (uint64_t)cap);
             if (!fin) { F("noprogress", "no return within the step budget"); return; }
             size_t L = payloads[0].size();
+            if (declared_only) {
+                if (rc != -ENOMEM) F("nomem", "room for %lld octets, prefix declares %llu: returned %zd, expected -ENOMEM", (long long)cap, (unsigned long long)declared_only, rc);
+                if (D.b.used != used0 || D.b.offset != off0 || !D.blk->unchanged_outside(0, 0)) F("nomem", "destination buffer changed although the declared frame does not fit");
+                return;
+            }
             if ((size_t)cap >= L) {
                 if (rc != (ssize_t)L) F("result", "room for %lld octets, frame of %zu: returned %zd", (long long)cap, L, rc);
                 else {
